@@ -412,6 +412,9 @@ pub fn run_ord<C: OrdColl>(case: &Case, rc: &RunCfg) -> Outcome {
         dense: case.get_i64("dense", if u <= 64 { 1 } else { 0 }) != 0,
         force_snap: false,
     };
+    if case.get_i64("local", 0) != 0 {
+        r.out.class("local_window");
+    }
     let mut last_look = 0usize;
     for (i, op) in case.ops.iter().enumerate() {
         if r.out.failure.is_some() || r.out.blocked.is_some() {
